@@ -143,9 +143,47 @@ def build(ctx):
                 ctx.prop('format/n%d/p%d/exit-is-0-or-1-and-1-only-if-some-input-or-probe-failed' % (nfiles, i), pc + [okret],
                          z3.Or(z3.Not(z3.Or(code.e == 0, code.e == 1)), z3.And(multi1, z3.Not(single(final)))), list(final) + [chk], replay_cli(ctx))
     ctx.cover('cover/two-inputs-second-fails', [z3.BoolVal(True)])
+    part_emit_whatever_came_before(ctx, lib)
     findings = cli_runs()
     ctx.validated += 1
     ctx.validation_detail.append({'cli_findings_on_this_tree': findings})
+
+
+def part_emit_whatever_came_before(ctx, lib):
+    """Session::handle_formatted_file from an arbitrary session state (whatever earlier inputs left in `source_file`, `errors`, ...) with an output
+    sink present: the formatted text is handed to source_file::write_file exactly once on every path - what an input reports does not depend on
+    the inputs formatted before it."""
+    hff = lib.find('handle_formatted_file', self_ty='Session', file='src/formatting.rs', trait='FormatHandler')
+    old = (lib.lenient, lib.inline_only, list(lib.stubs))
+    lib.lenient = True
+    lib.stubs = []
+    lib.inline_only = [re.compile(r'handle_formatted_file$')]
+    wf_ok = z3.Bool('write_file.ok')
+
+    def write_file_stub(e, s_, a, c):
+        s_.trace.append(('write_file', a[1]))
+        return Enum('Result', z3.If(wf_ok, z3.BitVecVal(0, 64), z3.BitVecVal(1, 64)), {0: Tup([Tup([e.fresh_bool('emitted.has_diff')], 'EmitterResult')]), 1: Tup([Opaque('io::Error', 'wf')])})
+    lib.stub(r'source_file::write_file::<|(^|::)write_file::<', write_file_stub, 'source_file::write_file = Ok(EmitterResult) | Err(io), observed')
+    try:
+        st = State()
+        sess = Opaque('Session', 'sess')
+        sfields = [n for n, _ in lib.src.struct_fields('Session', 'src/lib.rs')]
+        st.notes[('lazy', sess.ident, sfields.index('out'))] = Enum('Option', 1, {1: Tup([Opaque('&mut T', 'out')])})
+        sref = lib.ref_to(st, sess, True, 'session')
+        fn = lib.get_fn(hff)
+        args = [sref] + [lib.fresh_of_type(st, ty, 'arg.%s' % pn) for pn, ty in fn.params[1:]]
+        outs = ctx.check_outcomes(lib.run(hff, args, st), 'handle_formatted_file')
+    finally:
+        lib.lenient, lib.inline_only, lib.stubs = old
+    n = 0
+    for i, o in enumerate(outs):
+        if o.kind != 'ret':
+            continue
+        n += 1
+        calls = [t for t in o.state.trace if t[0] == 'write_file']
+        ctx.prop('handle_formatted_file/p%d/the-text-is-handed-to-the-emitter-exactly-once-whatever-came-before' % i, o.state.pc, z3.BoolVal(len(calls) != 1), [wf_ok], replay_cli(ctx), twin=False)
+    if not n:
+        raise Inconclusive('handle_formatted_file has no returning path')
 
 
 def cli_runs():
@@ -203,6 +241,32 @@ def cli_runs():
         r = run(['--check'] + order)
         if r.returncode != 1:
             findings.append('--check %s exit %d (max of single statuses is 1)' % (' '.join(order), r.returncode))
+    # every kind of failure survives a later clean input (and an earlier one): exit status = max of the single statuses
+    open(os.path.join(d, 'long.rs'), 'w').write('fn f() {\n    let x = "%s";\n}\n' % ('a' * 120))
+    open(os.path.join(d, 'trail.rs'), 'w').write('fn f() {\n    let x = foo(  \n        %s);\n}\n' % ('a' * 100))
+    for what, first, cfg in (('a missing file', 'missing.rs', []), ('a line overflow', 'long.rs', ['--config', 'error_on_line_overflow=true']),
+                             ('left-behind trailing whitespace', 'trail.rs', []), ('a syntax error', 'bad.rs', [])):
+        alone = run(['--emit', 'stdout'] + cfg + [first]).returncode
+        if alone != 1:
+            continue
+        for order in ([first, 'ok.rs'], ['ok.rs', first]):
+            r = run(['--emit', 'stdout'] + cfg + order)
+            if r.returncode != 1:
+                findings.append('%s: rustfmt %s exits %d, %s alone exits 1' % (what, ' '.join(order), r.returncode, first))
+    # a module file shared by two inputs is reported for each of them
+    open(os.path.join(d, 'r1.rs'), 'w').write('mod common;\n')
+    open(os.path.join(d, 'r2.rs'), 'w').write('mod common;\n')
+    open(os.path.join(d, 'common.rs'), 'w').write('pub fn   g( ) { }\n')
+    cnt = {}
+    for order in (['r1.rs'], ['r2.rs'], ['r1.rs', 'r2.rs'], ['r2.rs', 'r1.rs']):
+        r = run(['--emit', 'json'] + order)
+        try:
+            cnt[tuple(order)] = sum(1 for e in _json.loads(r.stdout) if os.path.basename(e['name']) == 'common.rs')
+        except Exception:
+            cnt[tuple(order)] = -1
+    for order in (('r1.rs', 'r2.rs'), ('r2.rs', 'r1.rs')):
+        if cnt[order] != cnt[('r1.rs',)] + cnt[('r2.rs',)]:
+            findings.append('--emit json %s reports common.rs %d times, the single runs %d + %d times' % (' '.join(order), cnt[order], cnt[('r1.rs',)], cnt[('r2.rs',)]))
     shutil.rmtree(d, ignore_errors=True)
     return findings
 
